@@ -105,6 +105,7 @@ fn explore(ctx: &Ctx) -> Outcome {
     rest.extend(lzfam::big_inputs(ctx.tier, false));
     rest.extend(lzfam::dense_runs(ctx.tier));
     rest.extend(lzfam::twin_blocks());
+    rest.extend(lzfam::dense_displacements(ctx.tier));
     let t = rest
         .par_iter()
         .fold(Tally::new, |mut t, inp| {
